@@ -177,6 +177,28 @@ def make_tissue(seed, ncells, ragged=0.0, wild=False):
     return None
 
 
+def make_bricks2(seed):
+    """Brick tissue with two size populations (one row of large bricks under three rows of small ones, ratio of
+    areas about 6): a legitimate tissue in which cell areas are far from uniform. Returns (tissue, px) like make_tissue."""
+    rng = T.PRNG(seed)
+    W = int(rng.integers(54, 67))
+    hs = int(rng.integers(16, 20))
+    hb = int(round(W * hs * float(rng.uniform(5.3, 6.3)) / W))
+    nb = int(rng.integers(5, 8))
+    full = [k * W for k in range(nb + 1)]
+    half = [W // 2 + k * W for k in range(nb)]
+    rows = [(0, hb, full), (hb, hb + hs, half), (hb + hs, hb + 2 * hs, full), (hb + 2 * hs, hb + 3 * hs, half)]
+    polys = []
+    for r, (y0, y1, xs) in enumerate(rows):
+        below = rows[r - 1][2] if r > 0 else []
+        above = rows[r + 1][2] if r + 1 < len(rows) else []
+        for x0, x1 in zip(xs, xs[1:]):
+            bottom = [x0] + [x for x in below if x0 < x < x1] + [x1]
+            top = [x1] + [x for x in reversed(above) if x0 < x < x1] + [x0]
+            polys.append([(float(x), float(y0)) for x in bottom] + [(float(x), float(y1)) for x in top])
+    return T._lattice_from_polys(polys, "bricks2"), float(W)
+
+
 def rasterise(t, margin=4):
     zs = np.array(list(t.J.values()))
     x0, y0 = zs.real.min(), zs.imag.min()
@@ -191,10 +213,10 @@ def rasterise(t, margin=4):
     return fg, pix, (x0 - margin, y0 - margin)
 
 
-def make_image(seed, ncells, ragged=0.0, thinning=True, wild=False):
+def make_image(seed, ncells, ragged=0.0, thinning=True, wild=False, kind="voronoi"):
     """Returns dict(array uint8 with a 1-px margin added for the parser's crop, fg (cropped view), tissue, labels,
     regions) or None when the image preconditions are not met (counted by the caller)."""
-    mt = make_tissue(seed, ncells, ragged, wild=wild)
+    mt = make_bricks2(seed) if kind == "bricks2" else make_tissue(seed, ncells, ragged, wild=wild)
     if mt is None:
         return None
     t, px = mt
